@@ -5,3 +5,5 @@ package go9p
 // verifPoint is a schedule point of the verification harness; without the verif
 // build tag it is an empty, inlinable function.
 func verifPoint(point string, obj interface{}, a, b uint32) {}
+
+func verifB(b bool) uint32 { return 0 }
